@@ -31,6 +31,11 @@ func TestC04(t *testing.T) {
 		fail := func(v *drv.Violation) {
 			failCase(rt, replayDoc{Property: "C04", Kind: "history", Ops: e.Log}, v)
 		}
+		if rapid.IntRange(0, 3).Draw(rt, "withfaults") == 0 {
+			cfg.Faults = 3 // a commit that fails is a transaction boundary too: afterwards the model's previous state must hold
+		}
+		e.AllowCommitErr = true
+		e.AfterFailure = failureOracle
 		runHistory(rt, e, cfg, nil, fail)
 		finishHistory(e, fail)
 		c04Finish(e, col, excluded)
@@ -58,6 +63,8 @@ func c04Finish(e *drv.Env, col *collector, excluded int) {
 func replayHistoryC04(t *testing.T, d replayDoc) *drv.Violation {
 	e := drv.NewEnv("c04r")
 	defer e.Cleanup()
+	e.AllowCommitErr = true
+	e.AfterFailure = failureOracle
 	for _, op := range d.Ops {
 		if v := e.Apply(op); v != nil {
 			return v
